@@ -148,11 +148,12 @@ PROFILES = {
         'gen': gen_c20.gen_c20,
         'gen_indexed': gen_c20.gen_c20_indexed,
         'fixed_runs': lambda tier: gen_c20.FIXED_SIZE,
+        'seed_shift': lambda tier: len(gen_c20.CALLABLE_WITNESSES),
         'props': ['C20'],
         'coverage': c20_coverage,
         'warnings': c20_warnings,
         'level': 'exploration',
-        'quick_runs': 8000,
+        'quick_runs': 8005,
         'thorough_runs': 200000,
     },
     'C13': {
